@@ -73,7 +73,7 @@ initialize m60Pars : List Nat ← do
 
 /-- the cycle-accurate model of MVP-6.0 (`Model.Mvp60`) with eu = wu = 1..4, followed by ` r60=<a><b>`: membership of the program
 in the classes `Model.Mvp60.RegOnly` (a), `Model.Mvp60.StraightLine` (b) and `Model.Mvp60.StraightLineRet` (c) of the
-correctness statements (packages R60, R60b, R60c; ` r60=<a><b><c><d><e><f><g>`, d = `Model.Mvp60.BranchOnly`, e = `Model.Mvp60.RegOnlyWf`, f = `Model.Mvp60.StraightLineLd`, g = `Model.Mvp60.StraightLineLdRet`):
+correctness statements (packages R60, R60b, R60c; ` r60=<a><b><c><d><e><f><g><h>`, d = `Model.Mvp60.BranchOnly`, e = `Model.Mvp60.RegOnlyWf`, f = `Model.Mvp60.StraightLineLd`, g = `Model.Mvp60.StraightLineLdRet`, h = `Model.Mvp60.StraightLineLdR`):
 ` m60pK=<halt>,<cycles>,<same|DIFF>,<ticks>,<digest of final registers and memory>` -/
 def m60Suffix (app : Model.Seq.App) (ctx : Model.Context) (spec : Spec.Result) : String :=
   let fuel := 32 * Gen.Latency.MemoryAccess.toNat * (spec.steps + 64)
@@ -84,7 +84,7 @@ def m60Suffix (app : Model.Seq.App) (ctx : Model.Context) (spec : Spec.Result) :
     let cyc := match r.halt with | some .err => 0 | _ => r.final.cycles
     let dig := fnvStr (",".intercalate (fr.map showI32) ++ ";" ++ hex16 (fnv64 r.final.ctx.Memory.toArray))
     s!" m60p{k}={showHalt r.halt},{cyc},{if same then "same" else "DIFF"},{r.ticks},{hex16 dig}"
-  "".intercalate (m60Pars.map one) ++ s!" r60={if Model.Mvp60.RegOnly app then 1 else 0}{if Model.Mvp60.StraightLine app then 1 else 0}{if Model.Mvp60.StraightLineRet app then 1 else 0}{if Model.Mvp60.BranchOnly app then 1 else 0}{if Model.Mvp60.RegOnlyWf app then 1 else 0}{if Model.Mvp60.StraightLineLd app then 1 else 0}{if Model.Mvp60.StraightLineLdRet app then 1 else 0}"
+  "".intercalate (m60Pars.map one) ++ s!" r60={if Model.Mvp60.RegOnly app then 1 else 0}{if Model.Mvp60.StraightLine app then 1 else 0}{if Model.Mvp60.StraightLineRet app then 1 else 0}{if Model.Mvp60.BranchOnly app then 1 else 0}{if Model.Mvp60.RegOnlyWf app then 1 else 0}{if Model.Mvp60.StraightLineLd app then 1 else 0}{if Model.Mvp60.StraightLineLdRet app then 1 else 0}{if Model.Mvp60.StraightLineLdR app then 1 else 0}"
 
 /-- which parallelisms of the MVP-6.1 model are evaluated: K = 2 in the quick tier (K = 1, 2 cost +15 … +30 % of the quick
 checks' wall time, the model has no idle-skip), 1..4 under `VERIF_TIER=thorough`; `VERIF_M61=all|none` overrides -/
